@@ -23,6 +23,7 @@ import (
 	utils "github.com/alibaba/RedisShake/redis-shake/common"
 	conf "github.com/alibaba/RedisShake/redis-shake/configure"
 	"github.com/alibaba/RedisShake/redis-shake/dbSync/slot"
+	"github.com/alibaba/RedisShake/verifrt/crcref"
 	"github.com/alibaba/RedisShake/verifrt/ev"
 	"github.com/alibaba/RedisShake/verifrt/hook"
 	"github.com/alibaba/RedisShake/verifrt/memconn"
@@ -249,6 +250,14 @@ func rsOne(t *testing.T, c rsCase) (kind, what string) {
 	if len(keys1) != 1 {
 		return "checkpoint-keys", fmt.Sprintf("after the fresh run the target holds the checkpoint keys %v, expected exactly one", keys1)
 	}
+	if c.SourceType == conf.RedisTypeCluster {
+		// the key a cluster shard's checkpoint is stored under hashes into that shard's slot range
+		// (it has to live on the target node that owns the shard)
+		name := keys1[0][strings.Index(keys1[0], "/")+1:]
+		if sl := crcref.Slot([]byte(name)); sl < c.Left || sl > c.Right {
+			return "checkpoint-key-outside-shard", fmt.Sprintf("the checkpoint of the shard [%d,%d] is stored under %q, which hashes to slot %d", c.Left, c.Right, name, sl)
+		}
+	}
 	end1 := int64(rsBase + len(stream1))
 	p2 := rsRun(t, c, tgt, 2, stream1, stream2)
 	desc := func() string { return fmt.Sprintf("PSYNCs of the restarted process: %+v", p2.psyncs) }
@@ -331,7 +340,7 @@ func rsCases() []rsCase {
 	var out []rsCase
 	for _, refuse := range []int{0, 1, 2} {
 		out = append(out, rsCase{Sub: "restart", SourceType: "standalone", Left: -1, Right: -1, Refuse: refuse})
-		for _, rng := range [][2]int{{0, 5460}, {5461, 10922}, {12, 345}} {
+		for _, rng := range [][2]int{{0, 5460}, {5461, 10922}, {12, 345}, {7, 7}, {16383, 16383}, {100, 101}} {
 			out = append(out, rsCase{Sub: "restart", SourceType: conf.RedisTypeCluster, Left: rng[0], Right: rng[1], Refuse: refuse})
 		}
 	}
